@@ -4,6 +4,8 @@ import (
 	"context"
 	"encoding/json"
 	"fmt"
+	"io"
+	"log/slog"
 	"runtime"
 	"slices"
 	"strconv"
@@ -208,7 +210,8 @@ func c06Deploy(kgc, n int, from []partitioning.KeyGroupRange) string {
 func (w *c06World) newDB(id int, lo, hi, mem, target int, cfg c07Cfg, handles []recovery.CheckpointHandle) *c06Inst {
 	own := c06Own{operator.VerifNewOperatorPartition(partitioning.KeyGroupRange{Start: lo, End: hi})}
 	fs := w.root.WithWorkingDir(fmt.Sprintf("%s/i%d", w.dir, id))
-	db := dkv.New(dkv.DBOptions{FileSystem: fs, MemTableSize: uint64(mem), TargetFileSize: uint64(target), L0TableNumCompactionTrigger: cfg.l0, DataOwnership: own})
+	db := dkv.New(dkv.DBOptions{FileSystem: fs, MemTableSize: uint64(mem), TargetFileSize: uint64(target), L0TableNumCompactionTrigger: cfg.l0, DataOwnership: own,
+		Logger: slog.New(slog.NewTextHandler(io.Discard, nil))})
 	comp := db.VerifCompactor()
 	comp.MaxSizeAmplificationPercent = cfg.maxAmp
 	comp.SmallestLevelSize = int64(cfg.smallest)
